@@ -17,9 +17,9 @@ theorem mem_setAt (ds : List Delivery) (i : Nat) (d x : Delivery) (h : x ∈ set
   · exact Or.inr h
   · exact Or.inl h
 
-theorem inv_step (s : St) (i : Nat) (h : Inv s) : Inv (step true s i) := by
+theorem inv_step (s : St) (i : Nat) (h : Inv s) : Inv (step fixed s i) := by
   obtain ⟨h1, h2⟩ := h
-  simp only [step]
+  simp only [step, seen, fixed, if_true]
   cases hd : s.ds[i]? with
   | none => exact ⟨h1, h2⟩
   | some d =>
@@ -39,17 +39,26 @@ theorem inv_step (s : St) (i : Nat) (h : Inv s) : Inv (step true s i) := by
         intro x hx hx2
         simp
     · -- set
-      cases hp : s.pool with
-      | none =>
-        refine ⟨?_, by intro x _ _; simp⟩
-        intro x hx
-        have := h1 x hx
-        rw [hp] at this
-        exact absurd this (by simp)
-      | some f =>
-        refine ⟨?_, by intro x _ _; simp⟩
-        intro x hx
-        simpa [hp] using h1 x hx
+      by_cases hf : d.setFails = true
+      · -- the write fails: the delivery ends, nothing changes
+        simp only [hf, if_true]
+        refine ⟨h1, ?_⟩
+        intro x hx hx2
+        rcases mem_setAt _ _ _ _ hx with e | e
+        · subst e; simp at hx2
+        · exact h2 x e hx2
+      · simp only [hf, if_false]
+        cases hp : s.pool with
+        | none =>
+          refine ⟨?_, by intro x _ _; simp⟩
+          intro x hx
+          have := h1 x hx
+          rw [hp] at this
+          exact absurd this (by simp)
+        | some f =>
+          refine ⟨?_, by intro x _ _; simp⟩
+          intro x hx
+          simpa [hp] using h1 x hx
     · -- send
       rename_i hpc
       have hne := h2 d hmem hpc
@@ -62,49 +71,65 @@ theorem inv_step (s : St) (i : Nat) (h : Inv s) : Inv (step true s i) := by
           rcases hx with hx | hx
           · simpa [hp] using h1 x hx
           · simp [hx]
-        · intro x _ _; simp
+        · intro x hx hx2
+          simp
     · exact ⟨h1, h2⟩
 
-theorem inv_run (sched : List Nat) (s : St) (h : Inv s) : Inv (run true s sched) := by
+theorem inv_run (sched : List Nat) (s : St) (h : Inv s) : Inv (run fixed s sched) := by
   induction sched generalizing s with
   | nil => exact h
   | cons i r ih => exact ih _ (inv_step s i h)
 
-theorem inv_start (facts : List Nat) : Inv (start facts) := by
-  refine ⟨by simp [start], ?_⟩
+theorem inv_start (facts : List (Nat × Bool)) : Inv (startF facts) := by
+  refine ⟨by simp [startF], ?_⟩
   intro d hd hpc
-  simp only [start, List.mem_map] at hd
+  simp only [startF, List.mem_map] at hd
   obtain ⟨f, _, rfl⟩ := hd
   simp at hpc
 
-/-- **no_equivocation.**  With a broadcaster that hands the stored ballot to the network: whatever ballots
-are delivered for a stage point and however the steps of the deliveries interleave, every ballot the local
-node sends for that stage point carries one and the same fact. -/
-theorem no_equivocation (facts : List Nat) (sched : List Nat) :
-    ∀ x y, x ∈ (run true (start facts) sched).sent → y ∈ (run true (start facts) sched).sent → x = y := by
+/-- **no_equivocation.**  With a broadcaster that hands the stored ballot to the network, stops when the pool
+write fails, over a pool that reads what it wrote: whatever ballots are delivered for a stage point, whichever of
+their pool writes fail and however the steps of the deliveries interleave, every ballot the local node sends for
+that stage point carries one and the same fact. -/
+theorem no_equivocation (facts : List (Nat × Bool)) (sched : List Nat) :
+    ∀ x y, x ∈ (run fixed (startF facts) sched).sent → y ∈ (run fixed (startF facts) sched).sent → x = y := by
   intro x y hx hy
-  have h := (inv_run sched (start facts) (inv_start facts)).1
+  have h := (inv_run sched (startF facts) (inv_start facts)).1
   have := (h x hx).symm.trans (h y hy)
   exact Option.some.inj this
 
 /-- the fact sent is the one of the delivery that set the pool first -/
-theorem sent_is_stored (facts : List Nat) (sched : List Nat) :
-    ∀ x, x ∈ (run true (start facts) sched).sent → (run true (start facts) sched).pool = some x :=
-  (inv_run sched (start facts) (inv_start facts)).1
+theorem sent_is_stored (facts : List (Nat × Bool)) (sched : List Nat) :
+    ∀ x, x ∈ (run fixed (startF facts) sched).sent → (run fixed (startF facts) sched).pool = some x :=
+  (inv_run sched (startF facts) (inv_start facts)).1
 
 /-- the code before the repair (send what was just signed): two deliveries that both check before either
 sets make the local node send two different facts -/
-theorem mimic_race_witness : (run false (start [1, 2]) [0, 1, 0, 1, 0, 1]).sent = [1, 2] := by decide
+theorem mimic_race_witness : (run { fixed with sendStored := false } (start [1, 2]) [0, 1, 0, 1, 0, 1]).sent = [1, 2] := by decide
 
-/-- the same schedule with the repaired broadcaster -/
-example : (run true (start [1, 2]) [0, 1, 0, 1, 0, 1]).sent = [1, 1] := by decide
+/-- a broadcaster that goes on when the pool write fails sends whatever it signed (seeded change C08-C) -/
+theorem failing_pool_witness :
+    (run { fixed with stopsOnSetError := false } (startF [(1, true), (2, true)]) [0, 0, 0, 1, 1, 1]).sent = [1, 2] ∧
+    (run fixed (startF [(1, true), (2, true)]) [0, 0, 0, 1, 1, 1]).sent = [] := by decide
 
-/-- a delivery that checks after the first one has set does not send at all -/
-example : (run true (start [1, 2]) [0, 0, 1, 0, 1, 1]).sent = [1] := by decide
+/-- a pool that writes under another key than it reads never finds the stored ballot (seeded change C08-D) -/
+theorem key_mismatch_witness :
+    (run { fixed with keysAgree := false } (start [1, 2]) [0, 0, 0, 1, 1, 1]).sent = [1, 2] ∧
+    (run fixed (start [1, 2]) [0, 0, 0, 1, 1, 1]).sent = [1] := by decide
+
+example : (run fixed (start [1, 2]) [0, 1, 0, 1, 0, 1]).sent = [1, 1] := by decide
+example : (run fixed (startF [(1, true), (2, false), (3, false)]) [0, 1, 2, 0, 1, 2, 0, 1, 2]).sent = [2, 2] := by decide
+
+/-- the code as extracted from the source on this run -/
+def current : Code :=
+  { sendStored := Gen.C08.broadcastSendsStored, stopsOnSetError := Gen.C08.broadcastStopsOnSetError, keysAgree := Gen.C08.poolKeysAgree }
+
+theorem current_is_fixed : current = fixed := by decide
 
 theorem facts_ok :
     Gen.C08.broadcastSendsStored = true ∧ Gen.C08.setUnderLock = true ∧ Gen.C08.poolFirstWriterWins = true ∧
-    Gen.C08.mimicChecksPool = true ∧ Gen.C08.extractErrors = [] := by decide
+    Gen.C08.mimicChecksPool = true ∧ Gen.C08.broadcastStopsOnSetError = true ∧ Gen.C08.poolKeysAgree = true ∧
+    Gen.C08.extractErrors = [] := by decide
 
 theorem source_pinned : Gen.C08.pins = Pins.C08 := by decide
 
